@@ -55,7 +55,7 @@ pub fn run(ctx: &Ctx, rep: &mut Report) {
         for low in 0..4u8 {
             // valid bodies of every supported layout transplanted under this type value
             for b in gen::BRANCHES.iter() {
-                let reps = if ctx.thorough() { 64 } else { 3 };
+                let reps = if ctx.thorough() { 96 } else { 12 };
                 for _ in 0..reps {
                     let mut bits = gen::gen_message(b, &mut r);
                     bits.put(0, 6, t as u64);
